@@ -7,7 +7,7 @@
 #include "cc.h"
 enum ppflags ppflags;
 struct token tok;
-#define MAXTOK 96
+#define MAXTOK 320
 static struct token feed[MAXTOK]; static int nfeed, fpos;
 static char *dup(const char *s) { size_t n = strlen(s) + 1; char *p = malloc(n); ASSUME(p != 0); memcpy(p, s, n); return p; }
 static void push(enum tokenkind k, const char *lit, unsigned line) {
